@@ -181,8 +181,9 @@ for _c in ("Clue", "DropQuery", "TypiClust", "ProbCover"):
 _add("ParallelWrapper:threads", "ParallelUtilityEstimationWrapper", {"n_jobs": 3, "parallel_dict": {"backend": "threading"}}, ["pwc"], wrap="UncertaintySampling:entropy", batch1_14=True, batch1=True, rows=False)
 # a clustering class that is not a KMeans subclass but takes random_state as well
 for _c in ("Clue", "DropQuery", "TypiClust", "ProbCover"):
-    # (not in the C14 loop: scikit-learn's BisectingKMeans itself fails when asked for as many clusters as samples)
-    _add(f"{_c}:bisect", _c, {"cluster_algo": {"cluster": "BisectingKMeans"}, "cluster_algo_dict": {"n_init": 1}}, ["pwc"] if _c in ("Clue", "DropQuery") else (None,), no14=True)
+    # (not in the C14 / C07 loops, where a raising query is a violation: scikit-learn's BisectingKMeans itself fails
+    # when asked for as many clusters as samples)
+    _add(f"{_c}:bisect", _c, {"cluster_algo": {"cluster": "BisectingKMeans"}, "cluster_algo_dict": {"n_init": 1}}, ["pwc"] if _c in ("Clue", "DropQuery") else (None,), no14=True, fragile=True)
 _add("SubSamplingWrapper:int", "SubSamplingWrapper", {"max_candidates": 2}, ["pwc"], wrap="UncertaintySampling:lc_cost", batch1_14=True, rows=False)
 
 # strategies that need a mapping from candidates to X (feature-row candidates are refused: MappingError)
